@@ -16,6 +16,7 @@ Tolerance kept on purpose (HACKING.md, last paragraph): a line that starts ". CR
 be stored with or without its dot."""
 import json
 import os
+import shutil
 import time
 
 from .. import core, build, hrun, sandbox, smtpdrive
@@ -440,19 +441,22 @@ def bin_worker(bdir, lo, hi):
     res = core.Result()
     b = build.Build("asan", bdir)
     home = build.mktemp("nqv-c05-")
-    rec = os.path.join(home, "rec")
-    sandbox.make_home(b, home, controls={"me": "mx.test"}, bins=("qmail-smtpd",), queue=False)
-    os.makedirs(rec)
-    for i in range(lo, hi):
-        run_case(b, home, rec, i, res)
-        if res.counters.get("bin_watchdog", 0) >= 3:
-            res.inconclusive.append("C05 bin worker %d..%d gave up at case %d after 3 watchdog expiries" % (lo, hi, i))
-            break
-        if res.counters.get("violations_raw", 0) >= 10 or res.counters.get("bin_lockstep_stalls", 0) >= 2:
-            # the verdict is decided; do not spend the patience of every remaining lock-step session
-            res.counters.inc("bin_workers_stopped_early_after_violations")
-            res.counters.inc("bin_sessions_not_run", hi - i - 1)
-            break
+    try:
+        rec = os.path.join(home, "rec")
+        sandbox.make_home(b, home, controls={"me": "mx.test"}, bins=("qmail-smtpd",), queue=False)
+        os.makedirs(rec)
+        for i in range(lo, hi):
+            run_case(b, home, rec, i, res)
+            if res.counters.get("bin_watchdog", 0) >= 3:
+                res.inconclusive.append("C05 bin worker %d..%d gave up at case %d after 3 watchdog expiries" % (lo, hi, i))
+                break
+            if res.counters.get("violations_raw", 0) >= 10 or res.counters.get("bin_lockstep_stalls", 0) >= 2:
+                # the verdict is decided; do not spend the patience of every remaining lock-step session
+                res.counters.inc("bin_workers_stopped_early_after_violations")
+                res.counters.inc("bin_sessions_not_run", hi - i - 1)
+                break
+    finally:
+        shutil.rmtree(home, ignore_errors=True)   # pool workers do not run atexit handlers
     return res
 
 
